@@ -401,6 +401,17 @@ func ruleC05Digit(e *Env) {
 	}
 	for _, b := range fn.Blocks {
 		for _, in := range b.Instrs {
+			// a digit looked up in a constant string (strings.IndexByte("0123456789abcdef", digit)): every byte of that
+			// string is a class of its own
+			if call, ok := in.(*ssa.Call); ok && len(call.Call.Args) == 2 {
+				if n := calleeName(&call.Call); (n == "strings.IndexByte" || n == "bytes.IndexByte") && flow.StripConv(call.Call.Args[1]) == digitParam {
+					if str, ok := flow.ConstString(flow.Strip(call.Call.Args[0])); ok {
+						for i := 0; i < len(str); i++ {
+							bounds[int64(str[i])], bounds[int64(str[i])+1] = true, true
+						}
+					}
+				}
+			}
 			if bo, ok := in.(*ssa.BinOp); ok {
 				switch bo.Op {
 				case token.LSS, token.LEQ, token.GTR, token.GEQ, token.EQL, token.NEQ:
@@ -437,7 +448,23 @@ func ruleC05Digit(e *Env) {
 			lo, hi := bs[i], bs[i+1]-1
 			construct := fmt.Sprintf("byte %d..%d upper=%v", lo, hi, upper)
 			o := intervalOracle{sym: "digit", lo: lo, hi: hi}
-			ev := &pred.Evaluator{Prog: e.P.SSA, GlobalInit: e.globalTables(), Oracle: o}
+			idx := func(ev *pred.Evaluator, args []pred.Val) (pred.Val, error) {
+				str, ok1 := args[0].(pred.Const)
+				if !ok1 || str.V == nil || str.V.Kind() != constant.String || args[1].String() != "digit" {
+					return nil, &pred.Undecided{Reason: "IndexByte other than (constant string, the digit)"}
+				}
+				set := constant.StringVal(str.V)
+				if lo == hi {
+					return pred.Const{V: constant.MakeInt64(int64(strings.IndexByte(set, byte(lo))))}, nil
+				}
+				for i := 0; i < len(set); i++ {
+					if int64(set[i]) >= lo && int64(set[i]) <= hi {
+						return nil, &pred.Undecided{Reason: "IndexByte splits the byte class"}
+					}
+				}
+				return pred.Const{V: constant.MakeInt64(-1)}, nil
+			}
+			ev := &pred.Evaluator{Prog: e.P.SSA, GlobalInit: e.globalTables(), Oracle: o, Summaries: map[string]pred.Summary{"strings.IndexByte": idx, "bytes.IndexByte": idx}}
 			up := upper
 			out, err := ev.Eval(fn, e.Permuted("uu", "parseDigit", fn, func() []pred.Val {
 				return []pred.Val{pred.Sym{Name: "digit"}, pred.Const{V: constant.MakeBool(up)}}
@@ -467,6 +494,15 @@ func ruleC05Digit(e *Env) {
 					e.S.Ok(rule, site, construct, "rejected with value 0", e.Pos(fn))
 				} else {
 					e.S.Bad(rule, site, construct, fmt.Sprintf("rejected but the value is %v, not 0", t[0]), e.Pos(fn), "")
+				}
+				continue
+			}
+			// a single byte whose value the function computes as a constant (a table or string look-up)
+			if k, isK := intOf(t[0]); isK && lo == hi {
+				if k == wLo {
+					e.S.Ok(rule, site, construct, fmt.Sprintf("%q ↦ %d", rune(lo), wLo), e.Pos(fn))
+				} else {
+					e.S.Bad(rule, site, construct, fmt.Sprintf("%q is given the value %d, its hexadecimal value is %d", rune(lo), k, wLo), e.Pos(fn), string(rune(lo)))
 				}
 				continue
 			}
